@@ -496,6 +496,68 @@ def r_typekey_absent(ctx, rid="C09.typekey-absent"):
                               "`0*1 x` stop being interchangeable)" % (cfgname, adv, "cleared" if after == ("None",) else "still set"))
 
 
+def r_numkey(ctx, rid="C09.numkey"):
+    ctx.rule(rid, "numeric_ident_matches_cbor_value (the predicate that matches map keys against a numeric type-domain key such as `nint => v`): "
+                  "for every prelude numeric name x every integer across the 65-bit CBOR range (-2^64, -2^63-1, -2^63, -1, 0, 1, 2^63-1, "
+                  "2^63, 2^64-1) and a float, the result equals RFC 8610 Appendix D — uint / unsigned the non-negative integers, nint the "
+                  "negative ones down to -2^64, int / integer every integer, number integers and floats, float the floats (abstract "
+                  "evaluation; the classification predicates answer by name)", floor=60)
+    f = ctx.facts
+    cands = [x for x in f.fns("src/validator/cbor.rs") if x.name == "numeric_ident_matches_cbor_value" and not x.in_test]
+    if not cands:
+        raise vf.Incomplete("numeric_ident_matches_cbor_value not found")
+    fi = cands[0]
+    ints = [-2**64, -2**63 - 1, -2**63, -1, 0, 1, 2**63 - 1, 2**63, 2**64 - 1]
+    classes = {"uint": ("int", lambda v: v >= 0), "unsigned": ("int", lambda v: v >= 0), "nint": ("int", lambda v: v < 0), "int": ("int", lambda v: True),
+               "integer": ("int", lambda v: True), "number": ("both", lambda v: True), "float": ("float", None), "float64": ("float", None), "tstr": (None, None)}
+    for name, (kind, pred) in classes.items():
+        for doc in ints + ["float"]:
+            key = "%s|%s" % (name, doc)
+            v = ("enum", "Value::Float", [1.5]) if doc == "float" else ("enum", "Value::Integer", [doc])
+
+            def on_call(knd, nm, node, args, recv, name=name, kind=kind):
+                if knd == "fn" and nm:
+                    b = nm.split("::")[-1]
+                    if b == "ident_numeric_kind":
+                        return ("None",) if kind is None else ("Some", ("enum", "NumericKind::" + {"int": "Int", "float": "Float", "both": "Both"}[kind], []))
+                    if b == "is_ident_uint_data_type":
+                        return name in ("uint",)
+                    if b == "is_ident_nint_data_type":
+                        return name == "nint"
+                    if b.startswith("is_ident_"):
+                        return False
+                    if b == "lookup_ident":
+                        return ("enum", "Token::" + name.upper(), [])
+                    if nm in ("i128::from", "i64::from", "u64::from") and args and isinstance(args[0], int):
+                        return args[0]
+                if knd == "method" and isinstance(recv, tuple) and recv[:1] == ("enum",) and isinstance(recv[1], str) and recv[1].startswith("NumericKind::"):
+                    k = recv[1].split("::")[-1]
+                    if nm == "admits_int":
+                        return k in ("Int", "Both")
+                    if nm == "admits_float":
+                        return k in ("Float", "Both")
+                return NotImplemented
+            it = absint.Interp(env={"cddl": absint.OPAQUE, "ident": ("enum", "Identifier", {"ident": ("str", name), "socket": ("None",)}), "v": v}, on_call=on_call)
+            it.resolve_fn = vf.new_fn_resolver(f, ["src/validator/cbor.rs", "src/validator/mod.rs"], absint.default_cfg)
+            try:
+                try:
+                    res = it.block(fi.node["body"])
+                except absint.Return as r:
+                    res = r.v
+            except absint.Unknown as e:
+                ctx.incomplete_msg(rid, "%s: %s" % (key, e))
+                continue
+            if not isinstance(res, bool):
+                ctx.incomplete_msg(rid, "%s: result %r" % (key, res))
+                continue
+            want = (kind in ("float", "both")) if doc == "float" else (kind in ("int", "both") and pred(doc))
+            ctx.site(rid, key, fi.file, fi.line, {"matches": res})
+            if res != want:
+                ctx.violation(rid, key, fi.file, fi.line, "numeric_ident_matches_cbor_value(%s, %s) is %r; RFC 8610 Appendix D: %s %s this value — a map key of that "
+                              "value is %s by the member `%s => ...`" % (name, doc, res, name, "contains" if want else "does not contain",
+                                                                         "not claimed" if want else "wrongly claimed", name))
+
+
 def run(ctx):
     ctx.guarded("C09.eqne", r_eqne)
     ctx.guarded("C09.range", r_range)
@@ -506,5 +568,6 @@ def run(ctx):
     ctx.guarded("C09.absent", r_absent)
     ctx.guarded("C09.typekey-absent", r_typekey_absent)
     ctx.guarded("C09.prelude", r_prelude)
+    ctx.guarded("C09.numkey", r_numkey)
     ctx.guarded("C09.ctrlrestore.json", lambda c: cv.ctrlrestore_rule(c, "C09j", "json"))
     ctx.guarded("C09.ctrlrestore.cbor", lambda c: cv.ctrlrestore_rule(c, "C09c", "cbor"))
